@@ -105,9 +105,14 @@ def Op.putsEmpty : Op → Bool
   | .put _ v => (norm v).isNone
   | _ => false
 
-/-- comparison of an implementation/model answer with the contract's: values modulo empty ≡ absent -/
-def Out.conforms : Out → Out → Bool
-  | .value v, .value w => norm v == norm w
-  | a, b => a == b
+/-- answers are compared modulo empty ≡ absent for simple values -/
+def Out.normalize : Out → Out
+  | .value v => .value (norm v)
+  | o => o
+
+/-- an implementation/model answer conforms to the contract's answer -/
+def Out.conforms (a b : Out) : Prop := a.normalize = b.normalize
+
+instance (a b : Out) : Decidable (Out.conforms a b) := by unfold Out.conforms; infer_instance
 
 end Specter.Kv
